@@ -1,4 +1,4 @@
 SPECIFICATION Spec
 CONSTANTS MaxViews = 32 MaxSeg = 2
-INVARIANTS InvT1 InvT2 InvPartition InvCount InvBalancedNoViewSym InvBalancedEdges
+INVARIANTS InvT1 InvT2 InvPartition InvAsymSwapNeverPartition InvCount InvBalancedNoViewSym InvBalancedEdges
 CHECK_DEADLOCK FALSE
